@@ -208,7 +208,8 @@ struct C07 : public Driver {
             if (x.status != y.status || x.threw != y.threw) res.violateSub("status-differs", "task", "task " + std::to_string(i) + " job " + std::to_string(j) + ": status " + std::to_string(x.status) + (x.threw ? " " + x.exc : "") + " [" + x.err.substr(0, 200) + "] vs sequential " + std::to_string(y.status), sub);
             else if (x.bytes != y.bytes) { std::string d; std::string f = firstObsDiff(y.bytes, x.bytes, &d); res.violateSub("output-differs", f, "task " + std::to_string(i) + " job " + std::to_string(j) + " sequential vs concurrent: " + d, sub); }
         }
-        if (c.st.budgetExceeded) { if (c.faultTask >= 0) res.count("probe:step-budget-exceeded-after-shared-allocation-fault"); else res.violate("step-budget", "exceeded", "scheduler step budget exceeded"); }
+        if (c.st.budgetExceeded) { if (c.faultTask >= 0) res.count("probe:step-budget-exceeded-after-shared-allocation-fault"); else if (b.st.budgetExceeded || b.st.steps > simsched::Config().stepBudget / 2) res.count("probe:workload-larger-than-the-step-budget");      /* the sequential baseline needs (nearly) the whole budget itself: an expensive transformation, not a thread that makes no progress */
+            else res.violate("step-budget", "exceeded", "scheduler step budget exceeded (the sequential baseline took " + std::to_string(b.st.steps) + " steps)"); }
         std::string oh; for (auto& t : c.outs) for (auto& o : t) oh += hex64(fnvStr(o.bytes)) + ":" + std::to_string(o.status) + ",";
         tr.ev("base steps=" + std::to_string(b.st.steps) + " conc steps=" + std::to_string(c.st.steps) + " switches=" + std::to_string(c.st.switches) + " sched=" + hex64(c.st.scheduleHash) + " outs=" + oh + " races=" + std::to_string(c.races.size()));
     }
